@@ -30,8 +30,10 @@ def gen_cases(tier, seed):
     dev = 2 if tier == 'quick' else 3
     cases = []
     for cap in ((2, 4) if tier == 'quick' else (1, 2, 3, 4, 6)):
-        for kind in ('vertical', 'normal'):
+        for kind in ('vertical', 'normal', 'seam'):       # seam: westward across the 180th meridian
             for init_vd in (0.0, 4.5):
+                if kind == 'seam' and (init_vd != 0.0 or cap not in (2, 3)):
+                    continue
                 cases.append(dict(part='integrator', capacity=cap, wa=False, kind=kind,
                                   init_vd=init_vd, max_dev=dev, set_ops=['Sa', 'Sb', 'Sc', 'Sd']))
     # unobserved histories (see C02): nothing is read between the calls
